@@ -299,7 +299,7 @@ def main(tier):
             ev.write()
             return 1
         g = dc.Graph.from_tlc(r.outfile)
-        ev.add_tlc(part, r, {"graph_states": len(g.obs), "graph_edges": g.nedges, "cfg": cfg})
+        ev.add_tlc(part, r, {"graph_states": len(g.obs), "graph_edges": g.nedges, "transitions_by_action": vf.by_action(g), "cfg": cfg})
         os.remove(r.outfile)
         classes = [dc.COMP_CLASS] if comp else dc.PLAIN_CLASSES
         rep = {}
